@@ -55,6 +55,27 @@ ASSUMPTIONS = [
     "select_box's snapping tolerance is 1e-9 x the largest coordinate magnitude (binary64 product in the code, exact "
     "rational in the model): generated grid lines are at least 1/100 apart with magnitudes below 2^10, so no "
     "comparison is near the threshold",
+    "number spellings (every third case): the cells handed to definecoords / solve are tuples of Python numbers chosen "
+    "per cell and per coordinate among int, float, numpy.float64, numpy.int64 (integer values) and the float -0.0 "
+    "(value 0) - one grid line is then the int 1 for some cells and the float 1.0 for others, str() differs, the value "
+    "does not; patterns: by side of the line (cells below / left vs above / right), one single deviating number, all "
+    "ints with one float, one line only, independently at random; occupancies as int / float / numpy too.  In the "
+    "allocation path the text of the file writes a number as 3 / 3.0 / 3.00 / 30.0e-1 / 0.03e2 / 3.0e+0 (every form is "
+    "read back by the YAML reader as the same binary64 or int) and the parsed input file handed to select_box "
+    "carries int / float / numpy scalars / -0.0; select_box's result is handed to the search as the very objects it "
+    "returned (as rect's main does).  The model reads a written number by its value (RectSearch/Spelling.v "
+    "read_problem / read_arect; C08_spelling_irrelevant); bool, Fraction, Decimal and numpy.float32 are not generated "
+    "(InputBox = tuple[float, ...]: int and float subclasses are what a caller or the YAML reader produces)",
+    "grid lines one unit in the last place apart (one case in 20 with dyadic numbers, one in 40 with decimal ones: "
+    "x and nextafter(x), e.g. 0.3 and 0.1 + 0.2) are DIFFERENT lines - on the direct path only (select_box snaps lines "
+    "closer than 1e-9 x the largest magnitude, by its repair); one case in 40 has plain decimal coordinates on the "
+    "direct path.  Such a case is compared with the model only when areas_robust holds - every int(factor * p * w * h) "
+    "that rect.area forms in binary64, in any order of the multiplications, provably equals the integer part of the "
+    "exact product (all partial products exact, or the exact product further than 1e-12 relative from an integer) - "
+    "otherwise it is 'inexact': bound trivially met, direct oracle only (shape set by all-models enumeration, returned "
+    "rectangles = boxes)",
+    "two implementation names that map to one model variable ('b0_x_1' and 'b0_x_1.0') are kept apart as a foreign "
+    "variable: the model comparison then fails (not expressible) and the all-models enumeration / the oracle decide",
     "PySAT is trusted as sound and complete (Section variable sat_o in the theorems)",
     "the process-wide diagram store is reset to [0, 1] before a case and then filled by the case's own earlier "
     "solve (history); the store found at the start of the observed solve is the model's initial store",
@@ -653,7 +674,13 @@ class NameMap:
             if not m:
                 raise ValueError(f"unexpected variable name {nm!r}")
             tab = self.xi if m.group(2) in "xX" else self.yi
-            v = (m.group(2), int(m.group(1)), tab[float(m.group(3))])
+            try:
+                v = (m.group(2), int(m.group(1)), tab[float(m.group(3))])
+            except (KeyError, ValueError):
+                # a name that carries no grid line of this problem ('b0_x_0.4' on a grid whose line is
+                # 0.4000000000000001): not a variable of the model; the enumeration and the oracle decide
+                self.clashes.append(f"name {nm!r} carries no coordinate of the grid")
+                v = ("?", nm)
         if v in self.back and self.back[v] != nm:
             # two different names for what the model has as ONE variable (e.g. 'b0_x_1' and 'b0_x_1.0'): the formula is
             # not the model's; kept as a variable of its own so that the all-models enumeration and the oracle decide
@@ -752,7 +779,7 @@ def gvar(v):
     if t in ("N", "S", "E", "W"):
         return f"(v{t} {v[1]})"
     if t == "?":
-        raise ValueError(f"variable {v[1]!r} is a second name of a variable that the model has once")
+        raise ValueError(f"variable {v[1]!r} is not a variable of the model (a second name of one, or no grid line)")
     return f"(v{t} {v[1]} {v[2]})"
 
 
@@ -1206,7 +1233,14 @@ def run(ctx, out, replay=None):
                 "negative, and 1e3..1e6 away from 0 on either side; for <= 9 cells every "
                 "model of the solver's formula projected on the cell variables is enumerated with PySAT and compared "
                 "with the independent enumeration of shapes meeting the bound; the variable table (registration "
-                "order) is compared as well; non-trivial = full grid with >= 3 cells and k >= 2; distinct by hash")
+                "order) is compared as well; every third case writes equal numbers in different ways in different cells "
+                "(int / float / numpy.float64 / numpy.int64 / -0.0 per cell and coordinate: by side of the line, one "
+                "deviating number, all ints but one, one line only, at random; in allocation texts 3 / 3.0 / 3.00 / "
+                "30.0e-1 / 0.03e2 / 3.0e+0, in parsed input files int / float / numpy / -0.0) and the model reads the "
+                "problem as written (read_problem); one case in 20 has two (or three) grid lines one unit in the last "
+                "place apart (dyadic; one in 40 decimal: 0.3 | 0.1 + 0.2), one in 40 plain decimal coordinates on the "
+                "direct path - compared with the model when the binary64 area products provably truncate like the exact "
+                "ones, else direct oracle only; non-trivial = full grid with >= 3 cells and k >= 2; distinct by hash")
     cases = []
     if replay and "case" in replay:
         cases.append(fr.unjson(replay["case"]))
